@@ -425,6 +425,9 @@ func (g *Gen) modOp(st *State) Ev {
 			e.Freq = g.in(0, t, t+1)
 			e.Total = g.in(-1, 1, 2, 3)
 		}
+		if g.chance(0.05) { // a module that has not registered its state callback
+			e.Module = ModNameRespOnly
+		}
 		if g.chance(0.4) { // a module that acts on its context from inside its callbacks
 			e.RResp = g.pick([]string{"", "pause", "kill", "kill", "start", "start", "cap1"})
 			e.RState = g.pick([]string{"", "", "kill", "pause", "cap1"})
